@@ -182,6 +182,14 @@ def used_externals(src):
             if isinstance(n, ast.Call) and isinstance(n.func, ast.Name) and n.func.id == "external" and n.args and isinstance(n.args[0], ast.Constant)]
 
 
+def used_hasrepr(src):
+    try:
+        tree = ast.parse(src)
+    except SyntaxError:
+        return False
+    return any(isinstance(n, ast.Call) and isinstance(n.func, ast.Name) and n.func.id == "HasRepr" and len(n.args) == 2 for n in ast.walk(tree))
+
+
 def dangling(files, store):
     """references that would not resolve after the start of the next session (which removes every *-new.* file)"""
     kept = [s for s in store if not fnmatch.fnmatch(s, "*-new.*")]
@@ -206,8 +214,9 @@ def config_of(p, ref, order, ids):
             clean = False
         new = ref["files"][n].decode()
         exts = [ids[x[:12]] for x in used_externals(new) if x[:12] in ids]
-        had_import = "external" in src.split("\n")[0]
-        needs = (bool(used_externals(new)) and not had_import) or ("HasRepr(" in new and "HasRepr" not in src.split("\n")[0])
+        # ensure_import is called whenever the new code uses external(...) or HasRepr(..., ...) (it decides itself whether
+        # an import line has to be added)
+        needs = bool(used_externals(new)) or used_hasrepr(new)
         cfg.append((k, clean, needs, exts))
     return cfg
 
@@ -349,6 +358,8 @@ def run(ctx: Ctx):
                 ctx.report("C15 oracle: " + why[0], {"kind": "project", "project": p, "fault": flt}, tag=why[1])
                 if ctx.classify(why[1]) is None:
                     continue
+            if p["fmt"] == "garbage" and flt is not None and flt[1] == "fail":
+                continue       # double fault (garbage formatter + transient failure): outside the property, see C15_garbage_double_fault_refuted
             obs = observe(p, r, good, order, ids)
             terms.append(g_case(p, cfg, flt, obs, len(p["news"]), len(p["olds"])))
             meta.append((p, flt, obs))
